@@ -1,5 +1,6 @@
 import Cqos.Props.C06i
 import Cqos.Props.C07g
+import Cqos.Props.C06e
 /-
   C06 for v1, the clause "when nothing is in flight and some input has data, an item is delivered
   without any release being needed".
@@ -102,5 +103,31 @@ theorem c06_idle_delivers_v1 (div : DivFn) (keys : List (Nat × Bool)) (H : Nat)
 example :
     (run C07.f1div (initV1 C07.f1div [(2, true), (1, true)] 2)
       [.arrive 1 7, .top .none, .calc, .pollEmpty, .pollItem]).map (fun s => s.delivered) = some [(1, 1, 7)] := by decide
+
+end Cqos.C06
+
+namespace Cqos.C06
+
+/-- the custom divider `lowfirst` of the correspondence runs conserves the dividend (it is
+    contract-abiding: the constructor must judge its distributions by their content), … -/
+theorem sumRule_lowfirst : SumRule (fun _ => lowfirst) := by
+  intro i ps d m hm
+  show (lowfirst ps d m).total = d ∨ (lowfirst ps d m).total = 0
+  unfold lowfirst
+  split
+  · right; exact hm
+  · rename_i l hl
+    by_cases hd : d = 0
+    · right; rw [if_pos hd]; exact hm
+    · left
+      rw [if_neg hd]
+      have hne : ps ≠ [] := by
+        intro h; subst h; simp at hl
+      rw [C14.c14_fair_total ps (d - 1) (m.add l 1) hne, Dist.total_add, hm]
+      omega
+
+/-- … while `quota` does not (two priorities, dividend 1: two units are added): the helpers must
+    still answer by what it gives, and the constructor rejects it as faulty -/
+example : (quota [2, 1] 1 []).total = 2 := by decide
 
 end Cqos.C06
